@@ -39,9 +39,8 @@ def ascii_value(s):
 def digit_run(s):
     """number of leading ASCII digits"""
     if _is_b(s):
-        L = bsx.CTX.L
-        e = z3.IntVal(L)
-        for k in reversed(range(L)):
+        e = z3.IntVal(s.cap)
+        for k in reversed(range(s.cap)):
             e = z3.If(z3.And(k < s.n, bsx.z_ascii_digit(s.c[k])), e, k)
         return bsx.SInt(z3.simplify(e))
     i = 0
@@ -298,7 +297,7 @@ def h2(part):
     F = bsx.BStr.sym('F')
     cls = part['cls']
     # partition on the first two characters (disjoint, jointly exhaustive)
-    c0, c1 = F.c[0], F.c[1]
+    c0, c1 = F.at(0), F.at(1)
     if cls[0] == 'empty':
         C.add(F.n == 0)
     elif cls[0] == 'other':
